@@ -37,6 +37,10 @@ def factories():
     add('vq-stochastic', lambda: VectorQuantize(dim=3, codebook_size=5, stochastic_sample_codes=True, sample_codebook_temp=0.5), 3)
     add('vq-learnable-sgd', lambda: VectorQuantize(dim=3, codebook_size=5, learnable_codebook=True, ema_update=False, in_place_codebook_optimizer=partial(SGD, lr=0.5)), 3)
     add('vq-learnable-adam', lambda: VectorQuantize(dim=3, codebook_size=5, learnable_codebook=True, ema_update=False, in_place_codebook_optimizer=partial(Adam, lr=0.1)), 3)
+    add('vq-orth-ema', lambda: VectorQuantize(dim=3, codebook_size=5, orthogonal_reg_weight=1., decay=0.5), 3)
+    add('vq-orth-cosine-expiry', lambda: VectorQuantize(dim=3, codebook_size=6, use_cosine_sim=True, orthogonal_reg_weight=0.5, orthogonal_reg_max_codes=4, decay=0.5, threshold_ema_dead_code=2), 3)
+    add('vq-diversity', lambda: VectorQuantize(dim=3, codebook_size=5, codebook_diversity_loss_weight=0.5, decay=0.5), 3)
+    add('vq-ce-commit-rotation', lambda: VectorQuantize(dim=3, codebook_size=5, commitment_use_cross_entropy_loss=True, rotation_trick=False, decay=0.5), 3)
     add('vq-image', lambda: VectorQuantize(dim=3, codebook_size=5, accept_image_fmap=True, decay=0.5), 3, image=True)
     add('rvq-dropout', lambda: ResidualVQ(dim=3, num_quantizers=3, codebook_size=5, quantize_dropout=True, decay=0.5, threshold_ema_dead_code=1), 3, mask=True)
     add('rvq-shared-expiry', lambda: ResidualVQ(dim=3, num_quantizers=3, codebook_size=6, shared_codebook=True, decay=0.5, threshold_ema_dead_code=2), 3)
@@ -57,6 +61,9 @@ def factories():
     add('rpq', lambda: RandomProjectionQuantizer(dim=4, codebook_size=5, codebook_dim=2, num_codebooks=2), 4)
     add('latent', lambda: LatentQuantize(levels=[3, 4], dim=2), 2, image=True)
     add('latent-proj', lambda: LatentQuantize(levels=[5, 3], dim=4, optimize_values=False), 4, image=True)
+    from vlib import zoo
+    for zname, zc, zkw in zoo.configs():
+        add(zname, (lambda zkw=zkw: VectorQuantize(**zkw())), zkw()['dim'])
     return F
 
 
